@@ -3,11 +3,11 @@
 # checks, print what each reports, and undo the change again. Never commits anything to /repo.
 patch="$1"; shift
 cd /repo || exit 2
-if ! git diff --quiet; then echo "tryseed: /repo has uncommitted changes, refusing"; exit 2; fi
+if ! git diff HEAD --quiet; then echo "tryseed: /repo has uncommitted changes, refusing"; exit 2; fi
 git apply "$patch" || { echo "tryseed: patch does not apply"; exit 2; }
 for c in "$@"; do
   out=$(cd /verif && ./vcheck "$c" --tier quick 2>&1); rc=$?
   sigs=$(echo "$out" | grep -E "^  signature:" | sed 's/^  signature: //' | cut -c1-110 | sort -u | head -4 | tr '\n' '|')
   echo "$c rc=$rc $(echo "$out" | grep -c '^VIOLATION') violation(s) $sigs $(echo "$out" | grep -E '^BROKEN' | cut -c1-200)"
 done
-git -C /repo checkout -- . && git -C /repo clean -fdq
+git -C /repo reset -q --hard HEAD && git -C /repo clean -fdq
